@@ -32,10 +32,13 @@ Definition cons_in (cs : list (list (str * str))) (L : list wedge) : Prop :=
 Definition count_text (t : str) : Prop := t <> [] /\ trimmed t /\ nohash t.
 Definition wf_head (b : bdesc) : Prop :=
   Forall wf_hitem (b_items b) /\ Forall all_ws (b_blanks b) /\ all_ws (b_clead b) /\ all_ws (b_ctrail b) /\ count_text (b_ctok b).
+(* a line the edge loop (and the zero-vertex validation) passes over: blank, or - for read_graph on its own - a '#' line *)
+Definition skipped (cm : bool) (l : str) : Prop := is_blank l = true \/ (cm = true /\ is_hdr l = true).
+(* a zero-vertex block has no constraint and nothing but skipped lines after the count *)
 Definition wf_block (cm : bool) (b : bdesc) : Prop :=
   wf_head b /\ parse_int (b_ctok b) = IOk (b_n b) /\
-  (b_n b = 0%Z \/
-   (Forall (wf_bitem cm) (b_body b) /\ cons_in (spec_cons (b_items b)) (listed (b_body b)) /\
+  ((b_n b = 0%Z /\ spec_cons (b_items b) = [] /\ Forall (skipped cm) (map render_bitem (b_body b))) \/
+   (b_n b <> 0%Z /\ Forall (wf_bitem cm) (b_body b) /\ cons_in (spec_cons (b_items b)) (listed (b_body b)) /\
     has_src (listed (b_body b)) /\ has_snk (listed (b_body b)))).
 
 Definition denote (b : bdesc) : graph :=
@@ -45,7 +48,7 @@ Definition denote (b : bdesc) : graph :=
 
 (* ================================================================ the part of read_graph after the count line *)
 Definition finish (hdrs : list str) (cstr : list (list (str * str))) (body : list str) (n : Z) : res graph :=
-  if (n =? 0)%Z then Ok {| gid := hd_error hdrs; gcons := cstr; ginf := None |}
+  if (n =? 0)%Z then zero_block (hd_error hdrs) cstr body
   else match read_edges body ([], []) with
        | Error e => Error e
        | Unmodelled => Unmodelled
@@ -120,12 +123,19 @@ Proof.
     apply (Hno e He). rewrite Ee. exact E.
 Qed.
 
+Lemma skipped_forallb cm body : Forall (skipped cm) body -> forallb skipped_line body = true.
+Proof.
+  intros H. apply forallb_forall. apply Forall_forall. eapply Forall_impl; [|exact H].
+  intros l [Hl|[_ Hl]]; unfold skipped_line; rewrite Hl; [reflexivity|apply orb_true_r].
+Qed.
+
 Theorem read_render_block cm b : wf_block cm b -> read_graph (render_block b) = Ok (denote b).
 Proof.
   intros ((Hi & Hb & Hl & Ht & Hc) & Hp & Hrest). unfold render_block, count_line.
   rewrite read_graph_head by assumption. rewrite Hp. unfold finish, denote.
-  destruct (b_n b =? 0)%Z eqn:Z0; [reflexivity|].
-  destruct Hrest as [E|(Hbody & Hcons & Hsrc & Hsnk)]; [rewrite E in Z0; discriminate|].
+  destruct Hrest as [(E & Hc0 & Hsk)|(Hnz & Hbody & Hcons & Hsrc & Hsnk)].
+  { rewrite E. cbn [Z.eqb]. unfold zero_block. rewrite Hc0. rewrite (skipped_forallb cm) by assumption. reflexivity. }
+  destruct (b_n b =? 0)%Z eqn:Z0; [apply Z.eqb_eq in Z0; contradiction|].
   rewrite <- (app_nil_r (map render_bitem (b_body b))). rewrite (read_edges_body cm) by assumption. cbn [read_edges].
   pose proof (cons_in_forallb _ _ Hcons) as F.
   pose proof (src_ok _ Hsrc) as S1. pose proof (snk_ok _ Hsnk) as S2.
@@ -251,4 +261,67 @@ Proof.
   destruct p as [a0 b0]. apply has_edge_In in F.
   assert (F' : In (a0, b0) (map fst (snd (add_all (listed (b_body b)) (@nil str, @nil wedge))))) by (rewrite G; exact F).
   apply add_all_keys in F'. destruct F' as [[]|F']. contradiction.
+Qed.
+
+(* ================================================================ rejection in blocks that declare 0 vertices (fc0735f) *)
+Definition unskipped (l : str) : Prop := is_blank l = false /\ is_hdr l = false.
+Lemma bad_edge_unskipped l : bad_edge_line l -> unskipped l.
+Proof. intros (H1 & H2 & _). split; assumption. Qed.
+Lemma bad_weight_unskipped l : bad_weight_line l -> unskipped l.
+Proof.
+  intros (lead & u & gu & v & gv & w & gw & -> & Hl & Hc & Hn & _). cbn [wf_cells] in Hc. destruct Hc as (Hu & _). cbn [glue].
+  split; [apply is_blank_lead_token|apply is_hdr_lead_token]; assumption.
+Qed.
+
+Lemma zero_block_error id cstr body :
+  cstr <> [] \/ (exists l, In l body /\ unskipped l) -> exists e, zero_block id cstr body = Error e.
+Proof.
+  intros H. unfold zero_block. destruct cstr as [|c cs]; [|eexists; reflexivity].
+  destruct H as [H|(l & Hin & Hb & Hh)]; [congruence|].
+  destruct (forallb skipped_line body) eqn:F; [|eexists; reflexivity].
+  exfalso. rewrite forallb_forall in F. specialize (F l Hin). unfold skipped_line in F. rewrite Hb, Hh in F. discriminate.
+Qed.
+
+(* a constraint, or any line after the count that is neither blank nor a '#' line (in particular a damaged edge line) *)
+Theorem zero_block_rejected b body :
+  wf_head b -> parse_int (b_ctok b) = IOk 0%Z ->
+  spec_cons (b_items b) <> [] \/ (exists l, In l body /\ unskipped l) ->
+  exists e, read_graph (map render_hitem (b_items b) ++ b_blanks b ++ count_line b :: body) = Error e /\
+            (e = EZeroHasConstraints \/ e = EZeroHasEdges).
+Proof.
+  intros (Hi & Hb & Hl & Ht & Hc) Hp H. unfold count_line.
+  rewrite read_graph_head by assumption. rewrite Hp. unfold finish. cbn [Z.eqb].
+  unfold zero_block. destruct (spec_cons (b_items b)) as [|c cs] eqn:E.
+  - destruct H as [H|(l & Hin & Hb' & Hh)]; [congruence|].
+    destruct (forallb skipped_line body) eqn:F; [|eexists; split; [reflexivity|right; reflexivity]].
+    exfalso. rewrite forallb_forall in F. specialize (F l Hin). unfold skipped_line in F. rewrite Hb', Hh in F. discriminate.
+  - eexists. split; [reflexivity|left; reflexivity].
+Qed.
+
+(* whatever the count: a damaged edge line after well-formed lines is rejected *)
+Theorem bad_line_rejected_any_count cm b pre l post :
+  wf_head b -> parse_int (b_ctok b) = IOk (b_n b) ->
+  Forall (wf_bitem cm) pre -> bad_edge_line l \/ bad_weight_line l ->
+  exists e, read_graph (map render_hitem (b_items b) ++ b_blanks b ++ count_line b :: (map render_bitem pre ++ l :: post)) = Error e.
+Proof.
+  intros Hh Hp Hpre Hbad. destruct (Z.eq_dec (b_n b) 0) as [Z0|Z0].
+  - rewrite Z0 in Hp. destruct (zero_block_rejected b (map render_bitem pre ++ l :: post) Hh Hp) as (e & He & _); [|exists e; exact He].
+    right. exists l. split; [apply in_or_app; right; left; reflexivity|].
+    destruct Hbad; [apply bad_edge_unskipped|apply bad_weight_unskipped]; assumption.
+  - destruct Hbad as [H|H].
+    + exists EBadEdge. apply (bad_line_rejected cm); try assumption. left. split; [assumption|reflexivity].
+    + exists EBadWeight. apply (bad_line_rejected cm); try assumption. right. split; [assumption|reflexivity].
+Qed.
+
+(* whatever the count: a constraint edge that no edge line lists is rejected *)
+Theorem missing_constraint_edge_rejected_any_count cm b :
+  wf_head b -> parse_int (b_ctok b) = IOk (b_n b) ->
+  (b_n b <> 0%Z -> Forall (wf_bitem cm) (b_body b)) ->
+  (exists c p, In c (spec_cons (b_items b)) /\ In p c /\ ~ In p (map fst (listed (b_body b)))) ->
+  exists e, read_graph (render_block b) = Error e.
+Proof.
+  intros Hh Hp Hbody Hmiss. destruct (Z.eq_dec (b_n b) 0) as [Z0|Z0].
+  - rewrite Z0 in Hp. destruct (zero_block_rejected b (map render_bitem (b_body b)) Hh Hp) as (e & He & _); [|exists e; exact He].
+    left. destruct Hmiss as (c & _ & Hc & _). intros E. rewrite E in Hc. destruct Hc.
+  - exists EMissingConstraintEdge. apply (missing_constraint_edge_rejected cm); auto.
 Qed.
